@@ -19,6 +19,8 @@ type VerifFileState struct {
 	CopySched  []string
 	Epochs     []uint64
 	RootEpoch  uint64
+	// in-memory (unpersisted) segments of the current root, and how many of them carry deletions
+	MemSegments, MemSegmentsWithDeletions int
 }
 
 func (s *Scorch) VerifFileState() (*VerifFileState, error) {
@@ -39,6 +41,11 @@ func (s *Scorch) VerifFileState() (*VerifFileState, error) {
 		for _, ss := range s.root.segment {
 			if ps, ok := ss.segment.(segment.PersistedSegment); ok {
 				rv.RootFiles = append(rv.RootFiles, filepath.Base(ps.Path()))
+			} else {
+				rv.MemSegments++
+				if ss.deleted != nil && !ss.deleted.IsEmpty() {
+					rv.MemSegmentsWithDeletions++
+				}
 			}
 		}
 	}
